@@ -8,6 +8,9 @@ import Mathlib.Algebra.Order.Ring.Rat
 import Mathlib.Algebra.Field.Rat
 import Mathlib.Algebra.Order.Group.Abs
 
+/-- simp set containing every generated definition: `simp only [gen_def]` unfolds them -/
+register_simp_attr gen_def
+
 /-- `math.isclose(a, b, rel_tol, abs_tol)`: `|a-b| ≤ max(rel_tol·max(|a|,|b|), abs_tol)`. -/
 def isclose {K : Type} [Field K] [LinearOrder K] (a b rel abs_tol : K) : Prop :=
   |a - b| ≤ max (rel * max |a| |b|) abs_tol
